@@ -36,6 +36,9 @@ class DCMotor:
             speed = float(value)
         except (TypeError, ValueError) as exc:
             raise TypeError("speed must be a number") from exc
+        if speed != speed:
+            # NaN compares false with both limits and would be stored as the speed
+            raise ValueError("speed must be a number between -1.0 and 1.0")
         if speed > 1.0:
             return 1.0
         if speed < -1.0:
